@@ -153,6 +153,24 @@ def encoder_features(body):
     for s in body.calls(re.compile(r"Vec::extend_from_slice$")):
         src = strip_refs(_replace(expr(body, s.node["args"][1]), is_data, ("v", -1, "DATA")))
         comb.append("PREFIX" if _contains(src, lambda y: _is_call(y, "from_elem")) else show(src))
+    f["_write_layout"] = "one write of prefix+payload" if comb else None
+    if not comb:
+        # header and payload handed to the storage layer separately: prefix at X, payload at X + PREFIX
+        ws = sorted(body.calls(re.compile(r"SharedMmap::write$")), key=lambda c: (len(body.dom_depth(c.bb)) if hasattr(body, "dom_depth") else 0, c.bb))
+        parts = []
+        for c in ws:
+            buf = strip_refs(_replace(expr(body, c.node["args"][2]), is_data, ("v", -1, "DATA")))
+            kind = "PREFIX" if _contains(buf, lambda y: _is_call(y, "from_elem")) else ("DATA" if show(buf) == "DATA" else show(buf)[:30])
+            parts.append((kind, strip_refs(expr(body, c.node["args"][1])), c))
+        pre = [p for p in parts if p[0] == "PREFIX"]
+        dat = [p for p in parts if p[0] == "DATA"]
+        if len(pre) == 1 and len(dat) == 1 and len(parts) == 2 and body.dominates(pre[0][2].bb, dat[0][2].bb):
+            lp, ld = linear(pre[0][1]), linear(dat[0][1])
+            pm = f["prefix_alloc"][0] if f["prefix_alloc"] else None
+            if lp is not None and ld is not None and lp[0] == ld[0] and pm is not None and ld[1] - lp[1] == pm:
+                comb = ["PREFIX", "DATA"]
+                f["_write_layout"] = "two writes: prefix at X, payload at X + PREFIX_META_SIZE"
+                f["_split_writes"] = (pre[0][2], dat[0][2])
     f["combined_order"] = comb
     f["_meta_site"] = msite
     return f
